@@ -560,6 +560,11 @@ def run_share_surface(desc, ctx):
         ctx.nontrivial(_key(desc))
     ctx.cls("share:size_ratio_%s" % ("<10" if area.max() / area.min() < 10 else ("<1000" if area.max() / area.min() < 1000 else ">=1000")))
     V = np.asarray(V, float)
+    unit_len = [1.0, 1.0, 1.2e-5, 1.0, 3e-7, 1e4][desc["seed"] % 6]
+    if unit_len != 1.0:
+        # the same surface in very small / large units: the shares follow the area ratios, which have no unit
+        V = V * unit_len
+        ctx.cls("share_surface:units:%g" % unit_len)
     if random.Random(desc["seed"] ^ 0x4321).random() < 0.5:
         import mouette as M
         ctx.cls("share:history:measured_then_deformed")
